@@ -507,6 +507,10 @@ func str(s string) *string { return &s }
 
 func main() {
 	cfg := out.ParseFlags("C07")
+	if cfg.Extra == "conc-child" {
+		concChild(cfg.Thorough())
+		return
+	}
 	g := &gen{w: out.NewWriter(cfg, "Verif.Corr.C07", 300), r: rng.New(cfg.Seed), cfg: cfg}
 	if cfg.Only >= 0 {
 		// replay of one case: the writer leaves "samples" null unless the index happens to be
@@ -514,11 +518,14 @@ func main() {
 		g.w.Meta["samples"] = []interface{}{}
 	}
 	corpus(g)
+	reuseSequential(g)
 	smallScope(g)
 	capCases(g)
 	random(g)
 	malformed(g)
 	bytesCases(g)
 	e2eCases(g)
-	g.w.Close("complete default backend stack (NewDefaultFactory over NewHTTPProxyWithHTTPExecutor, recording executor; received body and URL query decoded with encoding/json / net/url, trees compared): corpus of the recorded defects; exhaustive small scope = 30 variable value shapes x {query,mutation} x {POST,GET} x 4 parameter sets x 2 operation names, and 34 client bodies x 4 default sets x 2 transports; config.Init capitalisation of path parameter names; random configurations (strings over quotes, backslashes, controls, %, U+2028, astral, braces), random and malformed client bodies; arbitrary byte strings (every byte 0x80..0xff, UTF-8 boundary / overlong / surrogate / truncated sequences, random bytes) at 10 places (path parameter, query text, operation name, variable value and name, client body string x transport) and json.Marshal of byte strings against the escape model (every byte, boundary sequences, random); the same stack entered through the gin endpoint handler with the parameters taken from the escaped request path; nontrivial = at least one variable or a mutation", true)
+	reuseRandom(g)
+	reuseConcurrent(g)
+	g.w.Close("complete default backend stack (NewDefaultFactory over NewHTTPProxyWithHTTPExecutor, recording executor; received body and URL query decoded with encoding/json / net/url, trees compared): corpus of the recorded defects; exhaustive small scope = 30 variable value shapes x {query,mutation} x {POST,GET} x 4 parameter sets x 2 operation names, and 34 client bodies x 4 default sets x 2 transports; config.Init capitalisation of path parameter names; random configurations (strings over quotes, backslashes, controls, %, U+2028, astral, braces), random and malformed client bodies; arbitrary byte strings (every byte 0x80..0xff, UTF-8 boundary / overlong / surrogate / truncated sequences, random bytes) at 10 places (path parameter, query text, operation name, variable value and name, client body string x transport) and json.Marshal of byte strings against the escape model (every byte, boundary sequences, random); the same stack entered through the gin endpoint handler with the parameters taken from the escaped request path; instance reuse: one stack instance serving sequences of 3-7 different requests (12 fixed orders x 2 transports, random sequences) and 12 goroutines x 150 iterations over 12 distinct requests per configuration, each distinct (request, observation) pair once; nontrivial = at least one variable or a mutation", true)
 }
